@@ -35,6 +35,12 @@ func mkMode(alpha string, pad rune, strict bool) encMode {
 	return encMode{alpha, pad, strict, e}
 }
 
+// mkModeStrictFirst builds the same encoding with the options applied in the other order.
+func mkModeStrictFirst(alpha string, pad rune) encMode {
+	e := base64le.NewEncoding(alpha).Strict().WithPadding(pad)
+	return encMode{alpha, pad, true, e}
+}
+
 func (m encMode) args() string {
 	p := "-"
 	if m.pad != base64le.NoPadding {
@@ -114,6 +120,31 @@ func suiteB64(c *Ctx) {
 		mkMode(cryptAlpha, '=', false),
 		mkMode(cryptAlpha, base64le.NoPadding, true),
 		mkMode(stdAlpha, '=', true),
+		mkModeStrictFirst(cryptAlpha, base64le.NoPadding),
+		mkModeStrictFirst(stdAlpha, '='),
+	}
+	// strict mode rejects non-zero unused bits, whatever the order in which the options were applied (direct check)
+	for _, m := range modes {
+		if !m.strict {
+			continue
+		}
+		for a := 0; a < 64; a++ {
+			for b := 0; b < 64; b++ {
+				// two symbols carry 12 bits for one byte: the top 4 bits of the second symbol must be zero
+				t := []byte{m.alpha[a], m.alpha[b]}
+				if m.pad != base64le.NoPadding {
+					t = append(t, byte(m.pad), byte(m.pad))
+				}
+				_, err := m.enc.DecodeString(string(t))
+				c.Direct++
+				if b >= 4 && err == nil {
+					c.Fail("strict-accepts-unused-bits", "a strict encoding accepted a tail with non-zero unused bits", map[string]string{"suite": "b64", "mode": m.args(), "text": hx(t)})
+				}
+				if b < 4 && err != nil {
+					c.Fail("strict-rejects-valid", "a strict encoding rejected a canonical one-byte tail", map[string]string{"suite": "b64", "mode": m.args(), "text": hx(t)})
+				}
+			}
+		}
 	}
 	// exported encodings: alphabets and padding (statement's last clause), observed through the API
 	exp := func(name, got, want string) {
